@@ -46,8 +46,9 @@ def run(ctx):
     rule_I1(ctx, {'rows'})
     # ... and the bounds a resumed sampler tests the stored points against are the ones they
     # were drawn from: nothing of a fitted network is lost on the way through the file
-    from ..persist import rule_P8
+    from ..persist import rule_P8, rule_P14
     rule_P8(ctx)
+    rule_P14(ctx)
     rule_P4_sampler_subset(ctx, ('points', 'bound', 'shell_t', 'pop_shell', 'add_bound',
                                  'first-batch', 'update-shell', 'batch-checkpointed'),
                            'points, bounds and the transfer set')
